@@ -72,7 +72,7 @@ class RefServer:
             chunk = chunk + b"\x99" * (size - len(chunk) + 1)
             self.applied = True
         elif mis == "block2_num_skipped" and index >= max(1, at) and more and not self.applied:
-            num += 1
+            num += max(1, c.get("mis_delta", 1))
             chunk = self.rep[num * size : (num + 1) * size]
             more = (num + 1) * size < len(self.rep)
             self.applied = True
@@ -142,7 +142,8 @@ class RefServer:
             if more:
                 ack_num = num
                 if mis == "wrong_num_in_block1_ack" and index >= c.get("mis_at", 0) and not self.applied:
-                    ack_num = num + 1
+                    delta = c.get("mis_delta", 1)
+                    ack_num = num + delta if num + delta >= 0 else num + 1
                     self.applied = True
                 return (R.CONTINUE, [(R.O_BLOCK1, (ack_num, True, ack_szx))], b"")
             self.bodies.append(bytes(self.assembly))
@@ -299,6 +300,7 @@ def _case(draw):
         "misbehaviour": draw(st.sampled_from(MISBEHAVIOURS)),
         "mis_at": draw(st.integers(0, 3)),
         "mis_cut": draw(st.sampled_from(["one", "half", "all"])),
+        "mis_delta": draw(st.sampled_from([1, 1, 2, 5, -1])),
         "rng": draw(st.integers(0, 99)),
     }
     if draw(st.integers(0, 3)) == 0:
